@@ -291,6 +291,38 @@ class ModuleSrc:
             body = node.body
         return node
 
+    def guarded_defs(self, name):
+        """every top-level statement binding `name`, each with the if-conditions guarding it: [(stmt, [(test, polarity)])]"""
+        out = []
+
+        def binds(st):
+            if isinstance(st, (ast.FunctionDef, ast.ClassDef)):
+                return st.name == name
+            if isinstance(st, ast.Assign):
+                for tg in st.targets:
+                    if isinstance(tg, ast.Name) and tg.id == name:
+                        return True
+                    if isinstance(tg, ast.Tuple) and any(isinstance(e, ast.Name) and e.id == name for e in tg.elts):
+                        return True
+            return False
+
+        def walk(body, guards):
+            for st in body:
+                if binds(st):
+                    out.append((st, list(guards)))
+                if isinstance(st, ast.If):
+                    walk(st.body, guards + [(st.test, True)])
+                    walk(st.orelse, guards + [(st.test, False)])
+                elif isinstance(st, ast.Try):
+                    walk(st.body, guards)
+                    for h in st.handlers:
+                        walk(h.body, guards)
+                    walk(st.orelse, guards)
+                elif isinstance(st, ast.With):
+                    walk(st.body, guards)
+        walk(self.tree.body, [])
+        return out
+
     def toplevel(self, name):
         """last top-level statement binding name (Assign/def/class/import)"""
         found = None
@@ -592,6 +624,25 @@ class Interp:
         st = mod.toplevel(name)
         if st is None:
             return _MISSING
+        # several conditional definitions (`if FREEBSD: X = ... elif OPENBSD: X = ...`): take the one whose guards hold under
+        # the platform flags of this contract
+        cands = mod.guarded_defs(name)
+        if len(cands) > 1 and any(g for _, g in cands):
+            mfr = Frame(RepoFunc(mod, "<module>", None), {})
+            for cst, guards in cands:
+                ok = True
+                for test, pol in guards:
+                    try:
+                        tv = self.eval(test, mfr)
+                    except (PyRaise, Unsupported, NoContract):
+                        tv = None
+                    if isinstance(tv, bool) or tv is None or isinstance(tv, int):
+                        if tv is not None and bool(tv) != pol:
+                            ok = False
+                            break
+                if ok:
+                    st = cst
+                    break
         if isinstance(st, ast.FunctionDef):
             v = RepoFunc(mod, name, st)
         elif isinstance(st, ast.ClassDef):
